@@ -85,6 +85,9 @@ pub struct RunSpec {
     pub max_events: usize,
     /// simulated file arguments (hook H2): the paths must also appear in argv
     pub files: Vec<SimFile>,
+    /// simulated directory listings (hook H3); a directory that is not named here is listed
+    /// by the real file system
+    pub dirs: Vec<DirSrc>,
 }
 
 pub struct SimFile {
@@ -112,6 +115,7 @@ impl RunSpec {
             hash_seed: Some(0),
             max_events: 400_000,
             files: Vec::new(),
+            dirs: Vec::new(),
         }
     }
 }
@@ -138,7 +142,9 @@ pub fn run(spec: RunSpec) -> RunOut {
         // jawk checks that a file argument exists before it opens it
         let _ = std::fs::write(p, b"");
     }
+    let has_dirs = !spec.dirs.is_empty();
     let w = new_world(WorldSpec {
+        dirs: spec.dirs,
         input: spec.input,
         delivery: spec.delivery,
         rfault: spec.rfault,
@@ -175,6 +181,20 @@ pub fn run(spec: RunSpec) -> RunOut {
             })));
         }
     }
+    #[cfg(yift_jawk_verif)]
+    {
+        if has_dirs {
+            let w5 = w.clone();
+            jawk::verif::set_dir_lister(Some(Box::new(move |p: &std::path::Path| {
+                let i = find_dir(&w5, p)?;
+                Some(open_dir(&w5, i).map(|l| Box::new(l) as jawk::verif::DirEntries))
+            })));
+        } else {
+            jawk::verif::set_dir_lister(None);
+        }
+    }
+    #[cfg(not(yift_jawk_verif))]
+    let _ = has_dirs;
     LAST_PANIC.with(|p| *p.borrow_mut() = None);
     let w2 = w.clone();
     let res = catch_unwind(AssertUnwindSafe(move || {
@@ -187,6 +207,8 @@ pub fn run(spec: RunSpec) -> RunOut {
     }));
     #[cfg(yift_jawk_verif)]
     jawk::verif::set_file_opener(None);
+    #[cfg(yift_jawk_verif)]
+    jawk::verif::set_dir_lister(None);
     for p in &paths {
         let _ = std::fs::remove_file(p);
     }
